@@ -338,6 +338,11 @@ def r_outval(P, chk, only_units=None):
                     continue          # only runs when the call returned true
                 if const_before:
                     continue
+                # an accumulator: the call sits in a loop, the value is read after the loop ("the last one that was set wins",
+                # e.g. header-level metadata) - what an earlier iteration stored is the intended value there
+                loop = next((a for a in f.ancestors(c) if a["k"] in ("WhileStmt", "ForStmt", "DoStmt")), None)
+                if loop is not None and not any(a is loop for a in f.ancestors(x)):
+                    continue
                 bad = x
                 break
             chk.obligation(rid, "%s %s: `%s` filled by %s (stores it only on some paths)%s" % (
